@@ -515,6 +515,8 @@ pub fn sec_strings(ctx: &mut Ctx, items: &mut Items) {
         if !items.mine(ctx) {
             continue;
         }
+        // spread the enumeration over the shards (the dimension indices are periodic in i)
+        let i = if i < N_ENUM { (i * 7919) % N_ENUM } else { i };
         run_font(ctx, i, seed);
     }
 }
